@@ -37,6 +37,7 @@ import (
 	"os"
 	"path/filepath"
 	"sync"
+	"sync/atomic"
 	"syscall"
 
 	"github.com/pkg/errors"
@@ -186,6 +187,8 @@ func (r *receiver) run(ctx context.Context) error {
 	}
 
 	w := newDynamicWalker()
+	// set once this side has sent its FIN
+	var finSent atomic.Bool
 	// buffer Stat metadata in framed proto
 	metadataBuffer := &buffer{}
 	// stack of parent paths that can be replayed if metadata filter matches
@@ -208,6 +211,7 @@ func (r *receiver) run(ctx context.Context) error {
 		if err := dw.Wait(ctx); err != nil {
 			return err
 		}
+		finSent.Store(true)
 		r.conn.SendMsg(&types.Packet{Type: types.PACKET_FIN})
 		return nil
 	})
@@ -342,6 +346,11 @@ func (r *receiver) run(ctx context.Context) error {
 					}
 				}
 			case types.PACKET_FIN:
+				// the sender only ever echoes; a FIN nobody asked for would
+				// otherwise end this loop while the diff still waits for stats
+				if !finSent.Load() {
+					return errors.New("invalid FIN from sender before the transfer was complete")
+				}
 				for {
 					var p types.Packet
 					if err := r.conn.RecvMsg(&p); err != nil {
